@@ -12,11 +12,11 @@ from .run import Check, Section
 
 _dir = None
 SAMPLES = ["s0", "s1", "s2"]
-VARS = [("v1", "1", 10, ["A", "C"]), ("v2", "1", 20, ["A", "C"]), ("v3", "1", 30, ["A", "C"]), ("v4", "2", 15, ["A", "C"])]
+VARS = [("v1", "1", 10, ["A", "C"]), ("v2", "1", 20, ["A", "C"]), ("v3", "1", 30, ["A", "C", "G"]), ("v4", "2", 15, ["A", "C"])]  # v3 is tri-allelic
 DATA = [
     [(0, 1, 1), (1, 1, 1), (0, 0, 1), (1, 0, 1)],
     [(1, 0, 1), (255, 255, 1), (0, 1, 1), (0, 0, 1)],
-    [(0, 0, 1), (0, 1, 1), (1, 1, 1), (0, 1, 1)],
+    [(0, 0, 1), (0, 1, 1), (2, 1, 1), (0, 1, 1)],
 ]
 POPS = [[("A", "B"), ("B", "B"), ("A", "A"), ("B", "A")], [("B", "A"), ("A", "A"), ("A", "B"), ("A", "A")], [("A", "A"), ("A", "B"), ("B", "B"), ("B", "B")]]
 CLASSES = ["Genotypes", "GenotypesVCF", "GenotypesPLINK", "GenotypesAncestry"]
@@ -33,6 +33,11 @@ def setup():
     GF.write_vcf_text(_dir / "a.vcf", SAMPLES, VARS, data_a, pops=POPS)
     GF.compress_index(_dir / "a.vcf", _dir / "a.vcf.gz")
     GF.write_pgen(_dir / "g", SAMPLES, VARS, DATA)
+    # the haplotypes section transforms bi-allelic genotypes
+    vars_b = [(v[0], v[1], v[2], v[3][:2]) for v in VARS]
+    data_b = [[(min(c[0], 1) if c[0] != 255 else 255, min(c[1], 1) if c[1] != 255 else 255, c[2]) for c in r] for r in DATA]
+    GF.write_vcf_text(_dir / "gb.vcf", SAMPLES, vars_b, data_b)
+    GF.compress_index(_dir / "gb.vcf", _dir / "gb.vcf.gz")
     # phenotypes
     with open(_dir / "p.pheno", "w") as f:
         f.write("#IID\tp0\tp1\tp2\n")
@@ -110,8 +115,10 @@ def gen_hist_gt(rng, tier):
                 if rs is None or rng.random() < 0.6:
                     cs = rng.sample(ids_v, rng.randint(1, 5))
                 ops.append({"k": "subset", "rs": rs, "cs": cs, "inplace": rng.random() < 0.45})
-            elif r < 0.9:
+            elif r < 0.88:
                 ops.append({"k": "check_missing"})
+            elif r < 0.94:
+                ops.append({"k": "check_biallelic"})
             else:
                 ops.append({"k": "check_maf", "num": rng.choice([1, 2]), "den": rng.choice([3, 4])})
         yield {"cls": cls, "ops": ops}
@@ -166,6 +173,19 @@ def impl_hist_gt(case):
             idx = [i for i in range(d.shape[0]) if d.ndim == 3 and (d[i, :, :2] >= thr).any()]
             g.check_missing(discard_also=True)
             mops.append({"k": "dropRows", "idx": idx})
+        elif o["k"] == "check_biallelic":
+            d = np.asarray(g.data)
+            if d.ndim != 3 or d.dtype == np.bool_ or 0 in d.shape:
+                trace.append({"state": enc_gt(g)})
+                mops.append({"k": "index", "r": False, "c": False})
+                continue
+            multi = [j for j in range(d.shape[1]) if (d[:, j, :2] > 1).any()]
+            before = [str(v) for v in g.variants["id"]]
+            g.check_biallelic(discard_also=True)
+            e["biallelic_kept"] = [[str(v) for v in g.variants["id"]], [v for j, v in enumerate(before) if j not in multi]]
+            # the values are re-coded to booleans by this step: the model is handed the object's new contents as a
+            # fresh view (its own caches start empty, as a correct implementation's would after the columns moved)
+            mops.append({"k": "read", **enc_gt(g)})
         elif o["k"] == "check_maf":
             d = np.asarray(g.data)
             idx = []
@@ -210,6 +230,8 @@ def oracle_hist(case, obs):
     if "error" in obs:
         return f"history raised {obs}"
     for k, (o, e) in enumerate(zip(case["ops"], obs["trace"])):
+        if "biallelic_kept" in e and e["biallelic_kept"][0] != e["biallelic_kept"][1]:
+            return f"op {k}: check_biallelic(discard_also=True) left variants {e['biallelic_kept'][0]}, the variants without an allele index above 1 are {e['biallelic_kept'][1]}"
         if o["k"] != "subset":
             continue
         got = e["state"] if o["inplace"] else e["returned"]
@@ -452,7 +474,7 @@ def impl_hist_hp(case):
     from haptools import data as D
 
     log = SD.silent_log()
-    gts = D.GenotypesVCF(_dir / "g.vcf.gz", log=log)
+    gts = D.GenotypesVCF(_dir / "gb.vcf.gz", log=log)
     gts.read()
     gts.check_missing(discard_also=True)
     gts.check_biallelic()
@@ -577,7 +599,7 @@ CHECK = Check(
             teardown=teardown,
             describe=lambda c, o: [c["cls"], f"len={len(c['ops'])}"],
             nontrivial=lambda c, o: C.jdump(c) if sum(1 for x in c["ops"] if x["k"] == "subset") >= 2 else None,
-            rule="seeded random histories (3-8 operations: read all/region/samples/variants, index, subset in place or copying with unknown IDs and permutations, check_missing and check_maf with discard) on real Genotypes, GenotypesVCF, GenotypesPLINK and GenotypesAncestry objects backed by real indexed VCF / PGEN files; after every operation the visible contents (and every returned copy) are compared with the Lean machine fed the same file views; non-trivial = at least two by-ID subsets in the history",
+            rule="seeded random histories (3-8 operations: read all/region/samples/variants, index, subset in place or copying with unknown IDs and permutations, check_missing, check_biallelic and check_maf with discard; the genotype file holds a tri-allelic variant and a missing call) on real Genotypes, GenotypesVCF, GenotypesPLINK and GenotypesAncestry objects backed by real indexed VCF / PGEN files; after every operation the visible contents (and every returned copy) are compared with the Lean machine fed the same file views; non-trivial = at least two by-ID subsets in the history",
         ),
         Section(
             name="phenotypes_histories",
